@@ -9,5 +9,6 @@ mkdir -p bin evidence replays
 # warm the go1.26.8 build cache (std + harness deps) with one throw-away build
 S=$(mktemp -d /tmp/rosim-setup-XXXX)
 ./scripts/build_worker.sh "$S" || { rm -rf "$S"; exit 2; }
+./scripts/build_worker.sh "$S" race || { rm -rf "$S"; exit 2; }   # warms the -race build of std and deps (C13)
 rm -rf "$S"
 echo setup ok
